@@ -582,6 +582,9 @@ func (s *subscriberServer) Seek(
 	switch target := req.Target.(type) {
 	case *pubsubpb.SeekRequest_Time:
 		// FUTURE: do we want to bound how far in the future or past the target can be?
+		if target.Time.AsTime().IsZero() {
+			return nil, status.Error(codes.InvalidArgument, "Invalid seek time")
+		}
 		action := actions.NewSeekSubscriptionToTime(actions.SeekSubscriptionToTimeParams{
 			Name: req.Subscription,
 			Time: target.Time.AsTime(),
@@ -599,6 +602,13 @@ func (s *subscriberServer) Seek(
 		}
 		return &pubsubpb.SeekResponse{}, nil
 	case *pubsubpb.SeekRequest_Snapshot:
+		if !isValidSnapshotName(target.Snapshot) {
+			return nil, status.Errorf(
+				codes.InvalidArgument,
+				"Unsupported project / snapshot path %s",
+				target.Snapshot,
+			)
+		}
 		action := actions.NewSeekSubscriptionToSnapshot(actions.SeekSubscriptionToSnapshotParams{
 			SubscriptionName: req.Subscription,
 			SnapshotName:     target.Snapshot,
